@@ -1,7 +1,8 @@
-(* C04 — any valid layout written by another implementation is read correctly.  Statements are printed by Check below and compared with C04.expected.  PARTIAL: the layout-independence components are theorems — a chain is read as the concatenation of its sectors in chain order WHATEVER the sector numbers (fragmented, reversed, anywhere in the file), lookup finds exactly the keys of ANY search tree over the CFB order (balanced red-black or degenerate, any slots), listing is the in-order sequence, the order is shortlex on upper-cased UTF-16 units.  The composition open_any_layout (Represents b t -> abs (open b) = t) is not proved; it is checked on images written by an independent layout synthesiser. *)
+(* C04 — any valid layout written by another implementation is read correctly.  Statements are printed by Check below and compared with C04.expected.  PARTIAL: the layout-independence components are theorems — a chain is read as the concatenation of its sectors in chain order WHATEVER the sector numbers (fragmented, reversed, anywhere in the file), lookup finds exactly the keys of ANY search tree over the CFB order (balanced red-black or degenerate, any slots), listing is the in-order sequence, the order is shortlex on upper-cased UTF-16 units.  Also proved (proofs/WfOpen.v), for ARBITRARY bytes: whatever the independent checker spec/WfImage.v accepts - any sector placement, any chain order, any DIFAT layout - strict and permissive open take through the header, DIFAT, FAT, allocator-validation and MiniFAT phases and return exactly the tables the checker computed (FAT, FAT-sector list, DIFAT chain, decoded entries, MiniFAT), GIVEN that every directory slot decodes (entry_ok) and the directory validation accepts; those two hypotheses are the directory stage, not yet derived from the checker's tree rules, and SizeOk (at most MAXREGSECT sectors) is a rule the checker lacks.  The composition with the abstraction (Represents b t -> abs (open b) = t) is not proved; it is checked on images written by an independent layout synthesiser. *)
 From Cfb.model Require Import Base Names DirEnt State Alloc Dir Mini Store Handle Open Cfb.
 From Cfb.gen Require Import Consts.
-From Cfb.proofs Require Import NamesProofs ChainProofs DirProofs WalkProofs.
+From Cfb.spec Require Import WfImage.
+From Cfb.proofs Require Import NamesProofs ChainProofs DirProofs WalkProofs WfOpen.
 Set Printing Width 110.
 
 (* reading through any good chain returns the bytes of its sectors in chain order *)
@@ -39,3 +40,39 @@ Theorem C04_order_is_the_spec_order : ltac:(let t := type of cmp_names_key in ex
 Proof. exact cmp_names_key. Qed.
 Check C04_order_is_the_spec_order.
 Print Assumptions C04_order_is_the_spec_order.
+
+(* what acceptance by the independent checker means, rule by rule, for arbitrary bytes *)
+Theorem C04_checker_certificate : ltac:(let t := type of wf_certificate in exact t).
+Proof. exact wf_certificate. Qed.
+Check C04_checker_certificate.
+Print Assumptions C04_checker_certificate.
+
+(* ARBITRARY bytes accepted by the checker: the strict header decoder succeeds with the fields the checker read *)
+Theorem C04_wf_header_opens : ltac:(let t := type of wf_header_ok in exact t).
+Proof. exact wf_header_ok. Qed.
+Check C04_wf_header_opens.
+Print Assumptions C04_wf_header_opens.
+
+(* ... the DIFAT loop, FAT load, trim and allocator validation succeed in strict mode and produce the checker's FAT, whatever the layout *)
+Theorem C04_wf_open_reaches_directory_phase : ltac:(let t := type of wf_open_upto_alloc in exact t).
+Proof. exact wf_open_upto_alloc. Qed.
+Check C04_wf_open_reaches_directory_phase.
+Print Assumptions C04_wf_open_reaches_directory_phase.
+
+(* ... given the directory phase, the MiniFAT phase succeeds and open returns the state built from the checker's tables *)
+Theorem C04_wf_open_given_directory_phase : ltac:(let t := type of wf_open_given_dir in exact t).
+Proof. exact wf_open_given_dir. Qed.
+Check C04_wf_open_given_directory_phase.
+Print Assumptions C04_wf_open_given_directory_phase.
+
+(* PARTIAL composition: hypotheses = every slot decodes + directory validation accepts (+ SizeOk) *)
+Theorem C04_wf_open_ok_partial : ltac:(let t := type of wf_open_ok in exact t).
+Proof. exact wf_open_ok. Qed.
+Check C04_wf_open_ok_partial.
+Print Assumptions C04_wf_open_ok_partial.
+
+(* same for permissive open, identical state *)
+Theorem C04_wf_open_ok_permissive_partial : ltac:(let t := type of wf_open_ok_permissive in exact t).
+Proof. exact wf_open_ok_permissive. Qed.
+Check C04_wf_open_ok_permissive_partial.
+Print Assumptions C04_wf_open_ok_permissive_partial.
